@@ -325,5 +325,8 @@ func init() {
 		c.Rule = "state = canonical snapshot of pending uploads and parts reached by a C06 history; evaluation = one ListMultipartUploads request (prefix x delimiter, unpaginated and every max-uploads 1..n+1 walked with the server's markers) or one ListParts request (unpaginated, every max-parts 1..n+1 walked with NextPartNumberMarker, arbitrary numeric markers); distinct_nontrivial = distinct canonical states"
 		c.Assumptions = append(c.Assumptions, "only buckets that have had an upload initiated (statement precondition)", "arbitrary numeric part markers only need a well-formed ascending subset answer, empty beyond the highest part", "common prefixes are not counted against max-uploads")
 		runMP(c, "C14")
+		if c.Replay == nil {
+			bigMultipart(c)
+		}
 	}
 }
